@@ -234,8 +234,10 @@ def main(tier: str, seed: int) -> int:
     traces = []
     for i, beh in enumerate(behs):
         # the plain server is the main target; routers and firewalls carry the same user services
-        kind = SERVER_KINDS[0] if (tier == "quick" and i % 8 < 6) or (tier != "quick" and i % 4 < 2) else \
-            SERVER_KINDS[1 + (i // 2) % 2]
+        # (both variants of every kind: the kind changes every second behaviour, the variant every behaviour)
+        slot = (i // 2) % (8 if tier == "quick" else 4)
+        kind = SERVER_KINDS[2] if slot == (7 if tier == "quick" else 3) else \
+            SERVER_KINDS[1] if slot == (6 if tier == "quick" else 2) else SERVER_KINDS[0]
         variant = VARIANTS[i % len(VARIANTS)]
         if i >= len(behs) - ndirect:
             variant = DIRECT[i % len(DIRECT)]
